@@ -327,9 +327,10 @@ def points(t, case, setting, abs_guard=True, manly_low=-13.8):
     if cls == "Sinh":
         nu, sc = getp(t, "nu"), getp(t, "scale")
         sg = np.where(u >= 0, 1., -1.)
-        # scaled argument (x - nu)*scale from 1e-6 to 1e12 in magnitude
-        v = sg * np.exp(math.log(1e-6) + np.abs(u) * (math.log(1e12)
-                                                      - math.log(1e-6)))
+        # scaled argument (x - nu)*scale from 1e-30 to 1e12 in magnitude
+        # (asinh(v) = v to rounding below 1e-8: no digit may be lost there)
+        v = sg * np.exp(math.log(1e-30) + np.abs(u) * (math.log(1e12)
+                                                       - math.log(1e-30)))
         x = v / sc + nu
         return dict(x=x, sx=np.abs(x - nu) + abs(nu),
                     loc=np.maximum(np.abs(v), 1.) / sc, lab=lab, v=v)
